@@ -14,6 +14,7 @@ let dec_string (x : n) = String.concat "" (List.map (fun c -> String.make 1 (Cha
 let s_err = function
   | EMissingCount -> "MissingCount" | EBadCount -> "BadCount" | EBadEdge -> "BadEdge" | EBadWeight -> "BadWeight"
   | EMissingConstraintEdge -> "MissingConstraintEdge" | ENoSource -> "NoSource" | ENoSink -> "NoSink"
+  | EZeroHasConstraints -> "ZeroHasConstraints" | EZeroHasEdges -> "ZeroHasEdges"
 let s_dec d = Printf.sprintf "%d %s %d" (if d.dneg then 1 else 0) (dec_string d.dmant) (int_of_nat d.dscale)
 let s_graph g =
   let b = Buffer.create 256 in
